@@ -422,6 +422,33 @@ func runC15(w *World, r *Report) {
 	// ---- a source field reached at request time is handed on only if it can be read through reflection: the static check
 	// sees unexported fields only on statically typed paths — below an interface-typed value (a map[string]any entry) the
 	// request-time test is the only one, and Value.Interface() on an unexported field panics
+	r.Rule("C15.mapping-state-not-carried", "in the functions of compose/field_mapping.go that loop over a node's mappings, nothing computed from the current mapping is carried into the next iteration (the source-path cursor, the taken value, the target cursor start afresh for each mapping): the result does not depend on the declaration order", 2)
+	{
+		fmT := w.Named("compose", "FieldMapping")
+		overMappings := func(v ssa.Value) bool {
+			sl, ok := v.Type().Underlying().(*types.Slice)
+			if !ok {
+				return false
+			}
+			pt, ok := sl.Elem().Underlying().(*types.Pointer)
+			return ok && namedOf(pt.Elem()) == fmT
+		}
+		total := 0
+		for _, fn := range w.RepoFuncs("compose") {
+			n, hits := sliceRangeElemCarried(fn, overMappings)
+			total += n
+			for _, h := range hits {
+				r.Fail("C15.mapping-state-not-carried", fmt.Sprintf("%s: %s carried across the loop over mappings", w.fname(fn), h.phi.Comment), h.phi.Pos(), fmt.Sprintf("the value carried into the next iteration (%s) is computed from the current mapping: a cursor left where the previous mapping's walk ended — a later mapping of the same edge starts its source / target walk inside the previous one's intermediate value (wrong value taken when names recur, 'not found' error in Invoke, key silently dropped in Stream), and the outcome depends on the order the mappings were declared in", h.edge.Name()))
+			}
+			if n > 0 && len(hits) == 0 {
+				r.OK("C15.mapping-state-not-carried", fmt.Sprintf("%s: %d loop(s) over mappings", w.fname(fn), n), fn.Pos(), "header phis other than the index do not depend on the element")
+			}
+		}
+		if total < 2 {
+			undecidedf("C15.mapping-state-not-carried: only %d loops over []*FieldMapping found", total)
+		}
+	}
+
 	r.Rule("C15.source-field-readable", "checkAndExtractFromField returns a field value only under CanInterface() == true", 1)
 	{
 		f := w.Fn("compose", "checkAndExtractFromField")
